@@ -14,7 +14,7 @@ theorem admin_effects (p : Prim) (h : p.isAdmin = true) (c : Coin) :
 
 theorem balanced_nil' : Balanced [] := balanced_nil
 
-macro "bal_simp" : tactic => `(tactic| simp only [sumHold, sumVol, sumSide, sumEmission, sumBy_cons, sumBy_nil, Prim.dHold, Prim.dVol, Prim.dSide, Prim.dEmission, poolHoldings, stakeOf, orderEscrow, ↓reduceIte])
+macro "bal_simp" : tactic => `(tactic| simp only [sumHold, sumVol, sumSide, sumEmission, sumBy_cons, sumBy_nil, sumBy_append, List.cons_append, List.nil_append, Prim.dHold, Prim.dVol, Prim.dSide, Prim.dEmission, poolHoldings, stakeOf, orderEscrow, Order.escrowCoin, Order.escrowValue, ↓reduceIte])
 
 macro "bal_close" : tactic => `(tactic| (bal_simp; (repeat' split) <;> omega))
 
@@ -88,6 +88,77 @@ theorem Move.balanced (m : Move) : Balanced m.prims := by
       · have := admin_effects p h 0
         simp only [sumHold, sumSide, sumEmission, sumBy_cons, sumBy_nil]; omega
     · exact balanced_nil
+  | bancor a sell sellAmt buy buyAmt bip =>
+    simp only [Move.prims]
+    constructor
+    · intro c' _; split <;> split <;> bal_close
+    · split <;> split <;> bal_close
+  | delegate a cand coin value wl =>
+    cases wl with
+    | none => constructor
+              · intro c' _; simp only [Move.prims]; bal_close
+              · simp only [Move.prims]; bal_close
+    | some w => constructor
+                · intro c' _; simp only [Move.prims]; bal_close
+                · simp only [Move.prims]; bal_close
+  | unbond a stakeCand coin value wl f =>
+    cases wl with
+    | none => constructor
+              · intro c' _; simp only [Move.prims]; bal_close
+              · simp only [Move.prims]; bal_close
+    | some w =>
+      simp only [Move.prims]
+      split
+      · constructor
+        · intro c' _; bal_close
+        · bal_close
+      · split
+        · constructor
+          · intro c' _; bal_close
+          · bal_close
+        · constructor
+          · intro c' _; bal_close
+          · bal_close
+  | lock a f =>
+    constructor
+    · intro c' _; simp only [Move.prims]; bal_close
+    · simp only [Move.prims]; bal_close
+  | declare a cd coin stake =>
+    constructor
+    · intro c' _; simp only [Move.prims]; bal_close
+    · simp only [Move.prims]; bal_close
+  | poolCreate a p lp =>
+    simp only [Move.prims]
+    split
+    · exact balanced_nil
+    · next h =>
+      have h1 : lp.id ≠ 0 := fun e => h (Or.inl e)
+      have h2 : lp.reserve = 0 := Classical.byContradiction (fun e => h (Or.inr e))
+      constructor
+      · intro c' _; bal_simp; simp only [minLiquidity]; (repeat' split) <;> omega
+      · bal_simp; simp only [minLiquidity]; (repeat' split) <;> omega
+  | poolMint a c0 c1 a0 a1 lp liq =>
+    simp only [Move.prims]
+    split
+    · exact balanced_nil
+    · constructor
+      · intro c' _; bal_close
+      · bal_close
+  | poolBurn a c0 c1 a0 a1 lp liq =>
+    simp only [Move.prims]
+    split
+    · exact balanced_nil
+    · constructor
+      · intro c' _; bal_close
+      · bal_close
+  | orderAdd a o =>
+    constructor
+    · intro c' _; simp only [Move.prims]; bal_close
+    · simp only [Move.prims]; bal_close
+  | orderRemove a o =>
+    constructor
+    · intro c' _; simp only [Move.prims]; bal_close
+    · simp only [Move.prims]; bal_close
 
 theorem planOf_balanced (ms : List Move) : Balanced (planOf ms) := by
   induction ms with
